@@ -34,7 +34,7 @@ def _load(patches=None):
     L = load.load(["acryo._utils"], patches=patches)
     U = L["acryo._utils"]
     fft = FFTStub("exact")
-    U.fftn = fft.fftn
+    U.fftn, U.rfftn, U.irfftn = fft.fftn, fft.rfftn, fft.irfftn
     U.sum_labels = stubs.NdiStub.sum_labels
     return L
 
@@ -53,11 +53,50 @@ def ref_dft(a):
         for j in np.ndindex(shape):
             # exp(-2 pi i sum_k j*k/n): quarter turns because sides are in {1,2,4}
             q = sum(Fraction(jj * kk, n) for jj, kk, n in zip(j, k, shape)) % 1
-            c, s = {Fraction(0): (1, 0), Fraction(1, 4): (0, -1), Fraction(1, 2): (-1, 0), Fraction(3, 4): (0, 1)}[q]
+            s3 = z3.Real("sqrt3")  # sides 3 and 6: multiples of 60 degrees (hypothesis sqrt3^2 = 3, sqrt3 > 0)
+            h = Fraction(1, 2)
+            c, s = {Fraction(0): (1, 0), Fraction(1, 4): (0, -1), Fraction(1, 2): (-1, 0), Fraction(3, 4): (0, 1),
+                    Fraction(1, 6): (h, -s3 / 2), Fraction(1, 3): (-h, -s3 / 2), Fraction(2, 3): (-h, s3 / 2), Fraction(5, 6): (h, s3 / 2)}[q]
             v = zr(A_[j])
             re, im = re + c * v, im + s * v
         out[k] = (re, im)
     return out
+
+
+def _sqrt_apps(t):
+    out, seen, stack = [], set(), [t]
+    while stack:
+        u = stack.pop()
+        if u.get_id() in seen:
+            continue
+        seen.add(u.get_id())
+        if z3.is_app(u) and u.decl().name() == "Sqrt":
+            out.append(u)
+        stack.extend(u.children())
+    return out
+
+
+def _common_factor(N, Nref):
+    """a positive rational c with N = c * Nref, guessed at one point (sqrt3 at its value) and proved by the query that follows; 1 if none is found"""
+    from .c07 import _vars_of
+
+    vs = _vars_of(N, Nref)
+    rng = np.random.default_rng(7)
+    sub = [(v, z3.Sqrt(z3.RealVal(3)) if k == "sqrt3" else z3.RealVal(Fraction(int(rng.integers(1, 40)), int(rng.integers(1, 7))))) for k, v in vs.items()]
+
+    def val(t):
+        t = z3.simplify(z3.substitute(t, *sub)) if sub else z3.simplify(t)
+        if z3.is_rational_value(t):
+            return Fraction(t.as_fraction())
+        if z3.is_algebraic_value(t):
+            return Fraction(t.approx(40).as_fraction())
+        return None
+
+    a, b = val(N), val(Nref)
+    if a is None or b is None or b == 0:
+        return Fraction(1)
+    c = (a / b).limit_denominator(64)
+    return c if c > 0 and abs(c - a / b) < Fraction(1, 10 ** 9) else Fraction(1)
 
 
 def ref_shells(shape, dfreq):
@@ -101,6 +140,11 @@ def replay_fsc(cex):
             _, same = fourier_shell_correlation(a, a, dfreq)
             if not np.allclose(same[np.isfinite(same)], 1, atol=1e-4):
                 bad[f"{shape},{dfreq:.3f},self"] = True
+            # invariance under positive rescaling, also for numerically tiny / huge images
+            for g0, g1 in ((1e-6, 1e-6), (1e-12, 1.0), (1e5, 3e4)):
+                _, sc = fourier_shell_correlation(a * g0, b * g1, dfreq)
+                if not np.allclose(sc, out, atol=1e-4, equal_nan=True):
+                    bad[f"{shape},{dfreq:.3f},rescaled by {g0:g},{g1:g}"] = [float(np.nanmax(np.abs(sc - out)))]
     return len(bad) > 0, {"problems": dict(list(bad.items())[:5]), "n": len(bad)}
 
 
@@ -111,6 +155,9 @@ def sec_shell(rec, shape=(2, 2, 2), dfreq=0.5, patches=None):
     rec.assume("scipy.fft.fftn is the exact DFT (box sides in {1,2,4}); ndimage.sum_labels is a plain grouping sum; sqrt kept opaque")
     a, b = img("a", shape), img("b", shape)
     g = real("gain")
+    from symx.fftstub import SQRT3_FACTS
+
+    H3 = list(SQRT3_FACTS) if any(n in (3, 6) for n in shape) else []
     tag = f"fsc[{shape},dfreq={dfreq}]"
     C.SQRT_MODE["opaque"] = True
     try:
@@ -134,23 +181,31 @@ def sec_shell(rec, shape=(2, 2, 2), dfreq=0.5, patches=None):
             if parts is None:
                 rec.fact(f"{tag}/shell{i}/has-the-form-N/sqrt(R)", False, key="C17/fsc/form", detail={"term": str(zr(out[i]))[:200]}, reproduced=replay_fsc({})[0])
                 continue
-            N, R, _ = parts
-            rec.query(f"{tag}/shell{i}/numerator=Re-sum-F1-conj-F2", [], N == Nref, key="C17/fsc/formula", replay=replay_fsc, twin=False, nonlinear=True)
-            rec.query(f"{tag}/shell{i}/radicand=power-product", [], R == Pa * Pb, key="C17/fsc/formula", replay=replay_fsc, twin=False, nonlinear=True)
+            N, R, guard = parts
+            if guard is not None:
+                # a guarded value If(guard, N/sqrt(R), 0): the guard may only remove the undefined case R = 0 (anything else depends on the image amplitude)
+                ax = []
+                for sq in _sqrt_apps(guard):
+                    ax += [sq >= 0, sq * sq == sq.children()[0]]
+                rec.query(f"{tag}/shell{i}/guard<=>radicand>0", H3 + ax, guard == (R > 0), key="C17/fsc/amplitude-dependent-guard", replay=replay_fsc, twin=False, nonlinear=True, timeout_ms=30000)
+            # the value is N/sqrt(R): a common positive factor c (N = c Nref, R = c^2 Rref) does not change it
+            c = _common_factor(N, Nref)
+            rec.query(f"{tag}/shell{i}/numerator=c*Re-sum-F1-conj-F2 (c={c})", H3, N == z3.RealVal(c) * Nref, key="C17/fsc/formula", replay=replay_fsc, twin=False, nonlinear=True)
+            rec.query(f"{tag}/shell{i}/radicand=c^2*power-product", H3, R == z3.RealVal(c * c) * Pa * Pb, key="C17/fsc/formula", replay=replay_fsc, twin=False, nonlinear=True)
             rec.fact(f"{tag}/shell{i}/freq=(i+1/2)*dfreq", abs(float(freq[i]) - (i + 0.5) * dfreq) < 1e-12, key="C17/fsc/freq", detail={"freq": float(freq[i])})
             # symmetry in the inputs
             Ns, Rs, _ = split_score(zr(out_ba[i]))
-            rec.query(f"{tag}/shell{i}/symmetric", [], z3.And(Ns == N, Rs == R), key="C17/fsc/symmetry", replay=replay_fsc, twin=False, nonlinear=True)
+            rec.query(f"{tag}/shell{i}/symmetric", H3, z3.And(Ns == N, Rs == R), key="C17/fsc/symmetry", replay=replay_fsc, twin=False, nonlinear=True)
             # positive gain: N' = g N, R' = g^2 R
             Ng, Rg, _ = split_score(zr(out_ga[i]))
-            rec.query(f"{tag}/shell{i}/gain", [g.e > 0], z3.And(Ng == g.e * N, Rg == g.e * g.e * R), key="C17/fsc/gain-invariance", replay=replay_fsc, twin=False, nonlinear=True)
+            rec.query(f"{tag}/shell{i}/gain", H3 + [g.e > 0], z3.And(Ng == g.e * N, Rg == g.e * g.e * R), key="C17/fsc/gain-invariance", replay=replay_fsc, twin=False, nonlinear=True)
             # identical inputs: N*N = R and N >= 0  (=> 1 on every shell with power)
             Na, Ra, _ = split_score(zr(out_aa[i]))
-            rec.query(f"{tag}/shell{i}/self: N*N=R", [], Na * Na == Ra, key="C17/fsc/self", replay=replay_fsc, twin=False, nonlinear=True)
-            rec.query(f"{tag}/shell{i}/self: N=power>=0", [], Na == Pa, key="C17/fsc/self", replay=replay_fsc, twin=False, nonlinear=True)
+            rec.query(f"{tag}/shell{i}/self: N*N=R", H3, Na * Na == Ra, key="C17/fsc/self", replay=replay_fsc, twin=False, nonlinear=True)
+            rec.query(f"{tag}/shell{i}/self: N=power>=0", H3, Na == Pa, key="C17/fsc/self", replay=replay_fsc, twin=False, nonlinear=True)
             # range: N^2 <= R is Cauchy-Schwarz over the shell's bins; brute force only when the shell has <= 2 real degrees of freedom
             if len(bins) <= 1:
-                rec.query(f"{tag}/shell{i}/N*N<=R", [], N * N <= R, key="C17/fsc/range", replay=replay_fsc, twin=False, nonlinear=True, timeout_ms=60000)
+                rec.query(f"{tag}/shell{i}/N*N<=R", H3, N * N <= R, key="C17/fsc/range", replay=replay_fsc, twin=False, nonlinear=True, timeout_ms=60000)
     finally:
         C.SQRT_MODE["opaque"] = False
 
@@ -242,9 +297,9 @@ def sec_halves(rec, n=5, patches=None):
 def sections(tier):
     S = [("labels", "checks.c17", "sec_labels", {}), ("loader", "checks.c17", "sec_loader", {}), ("halves-n4", "checks.c17", "sec_halves", {"n": 4}), ("halves-n5", "checks.c17", "sec_halves", {"n": 5})]
     # (box, shell width) pairs in which every reported shell is non-empty (the property's lower bound on the width exists for that reason)
-    cfgs = [((1, 1, 2), 0.5), ((1, 2, 2), 0.5), ((2, 2, 2), 0.5), ((1, 1, 4), 0.25), ((1, 2, 4), 0.25)]
+    cfgs = [((1, 1, 2), 0.5), ((1, 2, 2), 0.5), ((2, 2, 2), 0.5), ((1, 1, 4), 0.25), ((1, 2, 4), 0.25), ((1, 1, 3), Fraction(1, 3)), ((1, 2, 3), Fraction(1, 3)), ((1, 3, 3), Fraction(1, 5))]
     if not quick(tier):
-        cfgs += [((2, 2, 4), 0.25), ((1, 4, 4), 0.25), ((1, 1, 4), 0.5), ((2, 1, 4), 0.25), ((2, 4, 4), 0.25)]
+        cfgs += [((2, 1, 3), Fraction(1, 3)), ((1, 3, 3), Fraction(1, 3)), ((1, 3, 2), Fraction(1, 3)), ((2, 2, 4), 0.25), ((1, 4, 4), 0.25), ((1, 1, 4), 0.5), ((2, 1, 4), 0.25), ((2, 4, 4), 0.25)]
     for shp, d in cfgs:
         S.append((f"shell-{shp}-{d}", "checks.c17", "sec_shell", {"shape": shp, "dfreq": d}))
     return S
